@@ -1,5 +1,6 @@
 import CircBuf.Lemmas.Tie.IterTie
 import CircBuf.Lemmas.Tie.Swap
+import CircBuf.Lemmas.NonDefect
 import CircBuf.Props.C11
 /-!
 # C11 — documented panics of `swap` and of the range translation: the theorems of `Props/C11.lean`, restated about the *translated source*
@@ -16,8 +17,8 @@ namespace CircBuf
 theorem C11_swap_ok_src (s : Sys) (i j : Nat) (h : Inv s.buf) (hi : i < s.buf.size) (hj : j < s.buf.size) :
     Refines (Gen.swap i j) s () (Spec.swap (abs s.buf) i j) := by
   first
-  | (rw [tie_swap _ _ s h]; exact C11_swap_ok s i j h hi hj)
-  | (have h0 := C11_swap_ok s i j h hi hj; unfold Refines at h0 ⊢; rw [tie_swap _ _ s h]; exact h0)
+  | (rw [tie_swap _ _ s h (nd_swap _ _ s h)]; exact C11_swap_ok s i j h hi hj)
+  | (have h0 := C11_swap_ok s i j h hi hj; unfold Refines at h0 ⊢; rw [tie_swap _ _ s h (nd_swap _ _ s h)]; exact h0)
 
 theorem C11_swap_panics_i_src (s : Sys) (i j : Nat) (hi : ¬ i < s.buf.size) :
     Gen.swap i j s = (.error (.doc "swap_i"), s) :=
